@@ -426,6 +426,8 @@ def verdict(pid, results, hist_of, known, also=None, all_kinds=()):
                 mine.append((r, dict(v, conj=f"{v['prop']}:{v['conj']}", prop=pid)))
             else:
                 others += 1
+                if others <= 10:
+                    vk.log(f"[other] {v['prop']} {v['conj']} at history {v['h']} op {v['k']} ({v['ev']}) in job {r['job']['name']}: not counted for {pid}")
     known_hits, new = {}, []
     for r, v in mine:
         h = hist_of(r, v["h"])
